@@ -213,6 +213,28 @@ theorem poly_slow_eq_sklearn (n degree : Nat) (io bias : Bool) :
     combinationsPoly n degree io bias = sklearnCombinations n degree io bias := by
   rw [poly_slow_eq_spec, spec_is_sklearn_combinations]
 
+/-- kind `'poly-slow'`, value level: for every matrix (any number of rows) over any multiplication, output column j
+holds, for EVERY row, the product over the j-th combination scikit-learn enumerates. -/
+theorem poly_slow_transform_eq_sklearn {α : Type} (mul : α → α → α) (one : α) (X : List (Nat → α))
+    (n degree : Nat) (io bias : Bool) :
+    transformPolySlow mul one X n degree io bias =
+      (sklearnCombinations n degree io bias).map (·.map (fun m => X.map (fun x => prodOf mul one x m))) := by
+  unfold transformPolySlow
+  simp only [SlowFill.wholeColumns_eq, if_true, poly_slow_eq_sklearn]
+  rfl
+
+/-- every output column of `'poly-slow'` has one entry per input row -/
+theorem poly_slow_columns_have_all_rows {α : Type} (mul : α → α → α) (one : α) (X : List (Nat → α))
+    (n degree : Nat) (io bias : Bool) (cols : List (List α))
+    (h : transformPolySlow mul one X n degree io bias = some cols) : ∀ c ∈ cols, c.length = X.length := by
+  rw [poly_slow_transform_eq_sklearn, spec_is_sklearn_combinations] at h
+  simp only [Option.map_some, Option.some.injEq] at h
+  subst h
+  intro c hc
+  simp only [List.mem_map] at hc
+  obtain ⟨m, _, rfl⟩ := hc
+  simp
+
 /-- value level: for every row over a commutative monoid, output column j of `_transform_poly` is the
 product over the j-th combination scikit-learn enumerates (`X[:, comb].prod(1)`). -/
 theorem column_is_sklearn_product {α : Type} {mul : α → α → α} {one : α} (h : CommMonoidLaws mul one)
@@ -269,6 +291,26 @@ theorem spec_monomials_wellformed (io : Bool) (n d : Nat) (m : Mono) (h : m ∈ 
   obtain ⟨h1, h2, h3⟩ := combs_wf io n d 0 m h
   exact ⟨h1, fun v hv => (h2 v hv).2, h3⟩
 
+/-! ### the tie to the functions the model transcribes -/
+
+/-- the functions the hand-written model transcribes have, in the current source, the control skeleton (tests, loop
+headers, kinds of statements and the names they bind) they had when the model was written and validated: no branch,
+loop, early exit or rebinding has been added that the model does not describe -/
+theorem modelled_functions_have_the_transcribed_shape :
+    MlVerif.Gen.C11.shapeTransformIall =
+      "if(bias){XP[]=;pos=}else{pos=};n=;for(d in range(0, degree)){if(d == 0){XP[]=;index=;posAdd=;call append}else{new_index=;end=;for(i in range(0, n)){a=;call append;new_pos=;call multiply;pos=};call append;index=}};return" ∧
+    MlVerif.Gen.C11.shapeTransformIonly =
+      "if(bias){XP[]=;pos=}else{pos=};n=;for(d in range(0, degree)){if(d == 0){XP[]=;index=;posAdd=;call append}else{new_index=;end=;for(i in range(0, n)){a=;call append;dec=;new_pos=;if(new_pos <= pos){break};call multiply;pos=};call append;index=}};return" ∧
+    MlVerif.Gen.C11.shapeCombinationsPoly =
+      "comb=;start=;return" ∧
+    MlVerif.Gen.C11.shapeFitPoly =
+      "call check_array;return" ∧
+    MlVerif.Gen.C11.shapeTransformPoly =
+      "if(sparse.isspmatrix(X)){raise};XP=;def multiply{return};def final{return};if(self.poly_interaction_only){return};return" ∧
+    MlVerif.Gen.C11.shapeFeatureNamesPoly =
+      "if(input_features is None){input_features=}else{if(len(input_features) != self.n_input_features_){raise}};names=;n=;interaction_only=;for(d in range(0, self.poly_degree)){if(d == 0){pos=;call extend;index=;call append}else{new_index=;end=;for(i in range(0, n)){a=;call append;start=;call extend};call append;index=}};def process_name{scol=;res=;for(c in sorted(scol)){if(not res or res[-1][0] != c){call append}else{res[]=}};return};names=;return" :=
+  ⟨rfl, rfl, rfl, rfl, rfl, rfl⟩
+
 /-! ### non-vacuity: concrete instances -/
 example : transformIall monoOps 2 3 true
     = some [[], [0], [1], [0,0], [0,1], [1,1], [0,0,0], [0,0,1], [0,1,1], [1,1,1]] := by decide +kernel
@@ -284,6 +326,10 @@ example : CommMonoidLaws (fun a b : Int => a * b) 1 :=
   ⟨Int.mul_assoc, Int.mul_comm, Int.one_mul⟩
 example : transformPoly (valOps (fun a b : Int => a * b) 1 (fun i => [2, 3].getD i 0)) 2 2 false true
     = some [1, 2, 3, 4, 6, 9] := by decide +kernel
+-- 'poly-slow' on a 3-row matrix: three entries in every column
+example : transformPolySlow (fun a b : Int => a * b) 1
+    [fun i => [2, 3].getD i 0, fun i => [1, 5].getD i 0, fun i => [0, 7].getD i 0] 2 2 true false
+    = some [[2, 1, 0], [3, 5, 7], [6, 5, 0]] := by decide +kernel
 -- the names recurrence (no `break`) on symbolic columns, interaction_only
 example : namesRaw monoOps 3 3 true true
     = some [[], [0], [1], [2], [0,1], [0,2], [1,2], [0,1,2]] := by decide +kernel
